@@ -58,13 +58,51 @@ def memzone_init(rnd):
                 key='bespokeasm.assembler.memory_zone:MemoryZone.__init__', contract_index=0)
 
 
+def predefined_data(rnd):
+    return dict(module='bespokeasm.assembler.line_object.predefined_data', cls='PredefinedDataLine', method='generate_bytes',
+                kind='method', fields={'_bytes': {'bytearray': []}, '_byte_length': rnd.randint(0, 40),
+                                       '_byte_value': rnd.choice([0, 1, 255, 256, 0x1234, -1, rnd.randint(-70000, 70000)])},
+                args={}, key='bespokeasm.assembler.line_object.predefined_data:PredefinedDataLine.generate_bytes',
+                contract_index=CI['PredefinedDataLine.generate_bytes'])
+
+
+def embedded_string(rnd):
+    n = rnd.randint(0, 12)
+    vals = [rnd.randint(0, 255) for _ in range(n)]
+    if rnd.random() < 0.2 and n:
+        vals[rnd.randrange(n)] = rnd.choice([256, 0x1234, -1])        # a character / terminator that is no byte
+    return dict(module='bespokeasm.assembler.line_object.emdedded_string', cls='EmbeddedString', method='generate_bytes',
+                kind='method', fields={'_bytes': {'bytearray': []}, '_string_bytes': {'list': vals}}, args={},
+                key='bespokeasm.assembler.line_object.emdedded_string:EmbeddedString.generate_bytes',
+                contract_index=CI['EmbeddedString.generate_bytes'])
+
+
+CI = {}
+
+
+def contract_indexes():
+    """index of the function-specific (not the shared abstract) contract of a key"""
+    import glob
+    import importlib
+    cdir = os.path.join(os.path.dirname(os.path.dirname(os.path.dirname(os.path.abspath(__file__)))), 'contracts')
+    for pth in sorted(glob.glob(os.path.join(cdir, 'c*.py'))):
+        importlib.import_module('contracts.' + os.path.basename(pth)[:-3])
+    from pyvc.registry import REG
+    for key, cs in REG.contracts.items():
+        for i, c in enumerate(cs):
+            if not (c.name or '').startswith('abs:') and not c.assumed:
+                CI.setdefault(key.split(':')[1], i)
+
+
 KERNELS = {'PackedBits.append_bits': packed_bits, 'MemoryZone.current_address.setter': memzone_setter,
-           'MemoryZone.__init__': memzone_init}
+           'MemoryZone.__init__': memzone_init, 'PredefinedDataLine.generate_bytes': predefined_data,
+           'EmbeddedString.generate_bytes': embedded_string}
 
 
 def main():
     n, out = int(sys.argv[1]), sys.argv[2]
     rnd = random.Random(int(os.environ.get('VERIF_SEED', '1')))
+    contract_indexes()
     summary, bad = {}, []
     for name, gen in KERNELS.items():
         ran = skipped = 0
